@@ -1,20 +1,27 @@
 """C15 — Monte-Carlo simulations are reproducible with independent repetitions.
 
+The Coq dataflow model (Model/C15_Dataflow.v) describes the code WITH the repairs /verif/fixes/c15-*.diff; the definitions
+`*_before_fix` of the model are only used to NAME a violation when the implementation follows the old dataflow.
+
 Sub-checks
   single    execute_simulation (single setting): repeat runs bit-identical; the data of every repetition is regenerated from the
             key the Coq dataflow model assigns to it (Generator(MT19937(SeedSequence(root, spawn_key=path))) at offset off);
-            repetitions pairwise different exactly where the model keys are pairwise distinct; re-estimation from the stored
-            empirical distributions reproduces the stored estimates.
+            repetitions pairwise different exactly where the model keys are pairwise distinct (theorem: always); re-estimation
+            from the stored empirical distributions reproduces the stored estimates.
+  race      execute_estimation under joblib's threading backend with a FORCED, recorded schedule (every task loads its data before any task optimises; steps serialised by locks):
+            every task's estimate must be the serial estimate of ITS data (model run_private on the recorded schedule).
+            Deterministic: nothing depends on a race manifesting.
   flow      execute_simulation_test_settings: worker counts {1,2,4} at each of the four joblib levels + repeats: objects,
-            empirical distributions, estimates, check verdicts bit-identical; objects/data regenerated from the model keys;
-            repetitions pairwise different; re_estimate reproduces; built-in physicality check vs the decision-table model
-            evaluated on the stored estimates; mixed noise methods (model: ambient stream / TypeError).
+            empirical distributions, estimates, check verdicts bit-identical; objects/data regenerated from the model keys
+            (all mixes of noise methods); repetitions pairwise different; re_estimate reproduces; built-in physicality check
+            vs the decision-table model evaluated on the stored estimates.
   depol     depolarised objects (three construction paths, all four object types) vs the model (composition = stated
             mixture, coefficient and operator level), p incl. 0 and 1, physical by quara's verdict and by exact PSD decision.
   randlind  random-Lindbladian noise objects: physical (quara verdict + exact PSD at tolerance), reproducible per seed. MONITORING.
   decision  synthetic stored estimates x estimator kind x parametrisation x algo flags: implementation verdict vs model.
+  sched     model-only: par_exec on random covering / non-covering orders; numpy SeedSequence.spawn vs the model's spawn paths.
 """
-import os, sys, io, shutil, itertools, contextlib, copy, warnings
+import os, sys, io, shutil, itertools, contextlib, copy, warnings, threading
 from fractions import Fraction
 import numpy as np
 from common import flow, qcheck
@@ -276,32 +283,44 @@ def chk_single(ctx, case):
     m = ctx.get_model()
     a = case["arg"]
     n_rep = case["n_rep"]
+    site = "standard_qtomography_simulation.execute_simulation"
     with quiet():
         sim, st, qt = build_single(case)
         runs = []
         for _ in range(2):
             if case.get("ambient_seed") is not None:
                 np.random.seed(case["ambient_seed"])
-            runs.append(sim.execute_simulation(qt, st, seed_or_generator=single_arg(case)))
+            try:
+                runs.append(sim.execute_simulation(qt, st, seed_or_generator=single_arg(case)))
+            except TypeError as e:
+                if "unexpected keyword argument 'seed_or_generator'" not in str(e):
+                    raise
+                runs = str(e)
+                break
+    if isinstance(runs, str):
+        # the model yields a result for every tomography type; the implementation yields none
+        ctx.count("single", key=repr(case), nontrivial=False, label="%s-%s-raises" % (case["tomo"], case["est"]))
+        ctx.violation("single", site, "raises-typeerror-seed-keyword",
+                      "execute_simulation for %s tomography raises TypeError: %s - the tomography class does not take the random stream under the "
+                      "name execute_simulation passes it; no simulation result for a valid configuration" % (case["tomo"], runs), case)
+        return
     r0, r1 = runs
-    site = "standard_qtomography_simulation.execute_simulation"
     # (a) repeat: bit-identical
     same = ([empi_bytes(s) for s in r0.empi_dists_sequences] == [empi_bytes(s) for s in r1.empi_dists_sequences]
             and [est_bytes(e) for e in r0.estimation_results] == [est_bytes(e) for e in r1.estimation_results])
-    # (b) model keys: the faithful model and the proposed repair (findings/C15-1.md); which one the code follows is observed
+    # (b) model keys (variant 0 = the model; variant 1 = the dataflow as coded before fix c15-execute-simulation-int-seed-stream,
+    #     used only to name the violation)
     ak = {"none": 0, "int": 1, "gen": 2}[a["kind"]]
     zs = [ak, a.get("seed", a.get("root", 0)), 0, int(case["seed_data"] is not None), case["seed_data"] or 0, n_rep] + list(a.get("path", []))
-    variants = [parse_keys(m.call("c15.single_keys", [v] + zs), n_rep)[0] for v in (0, 1)]
-    ambient = any(k[0] == "ambient" for k in variants[0])
+    keys, keys_before = [parse_keys(m.call("c15.single_keys", [v] + zs), n_rep)[0] for v in (0, 1)]
+    ambient = any(k[0] == "ambient" for k in keys)
     ctx.count("single", key=repr(case), nontrivial=n_rep >= 2, label="%s-%s-%s%s" % (case["tomo"], case["est"], a["kind"] if a["kind"] != "none" else ("default-seed_data" if case["seed_data"] is not None else "ambient"), "" if case["para"] else "-nopara"))
     if not same and not (ambient and case.get("ambient_seed") is None):
         ctx.violation("single", site, "repeat-not-identical", "two runs with the same settings and seed differ", case)
     # (c) regenerate every repetition's data from the key the model assigns to it
     stored = [empi_bytes(s) for s in r0.empi_dists_sequences]
-    keys = None
-    for v, ks in enumerate(variants):
-        if v == 1 and ks == variants[0]:
-            break
+
+    def regenerate(ks):
         with quiet():
             if case.get("ambient_seed") is not None:
                 np.random.seed(case["ambient_seed"])
@@ -317,25 +336,24 @@ def chk_single(ctx, case):
                     for (oo, r) in lst:
                         if oo == o:
                             expected[r] = d
-        if [empi_bytes(e) for e in expected] == stored:
-            keys = ks
-            if v == 1:
-                note_once(ctx, "single: execute_simulation follows the REPAIRED seed dataflow (single_key_fixed); the _refuted theorem describes the code before the repair")
-            break
-    if keys is None:
-        ctx.violation("single", site, "dataflow-model-mismatch",
-                      "the repetitions do not use the streams the dataflow model assigns (faithful keys %s, repaired keys %s)" % (variants[0], variants[1]), case)
-        return
-    # (d) property: repetitions are not copies of one another
+        return [empi_bytes(e) for e in expected]
     ident_pairs = [(i, j) for i in range(n_rep) for j in range(i + 1, n_rep) if stored[i] == stored[j]]
-    model_pairs = [(i, j) for i in range(n_rep) for j in range(i + 1, n_rep) if keys[i] == keys[j]]
-    if ident_pairs != model_pairs:
-        ctx.violation("single", site, "dataflow-model-mismatch", "identical repetition pairs %s, model predicts %s" % (ident_pairs, model_pairs), case)
-    elif ident_pairs:
-        ctx.violation("single", site, "repetitions-identical-int-seed",
-                      "execute_simulation with an int seed (%s): repetitions %s have identical empirical distributions and estimates "
-                      "(theorem C15_single_run_int_seed_identical; every repetition receives key %s)" % (
-                          "explicit" if a["kind"] == "int" else "simulation_setting.seed_data", ident_pairs, keys[0]), case)
+    if regenerate(keys) != stored:
+        if keys_before != keys and regenerate(keys_before) == stored:
+            ctx.violation("single", site, "repetitions-identical-int-seed",
+                          "execute_simulation with an int seed (%s): the repetitions do not draw from ONE stream (model keys %s) - every repetition starts a new "
+                          "generator from the seed (key %s for all of them; dataflow single_key_before_fix, theorem C15_single_run_int_seed_identical_before_fix): "
+                          "repetitions %s have identical empirical distributions and estimates" % (
+                              "explicit" if a["kind"] == "int" else "simulation_setting.seed_data", keys, keys_before[0], ident_pairs), case)
+        else:
+            ctx.violation("single", site, "dataflow-model-mismatch",
+                          "the repetitions do not use the streams the dataflow model assigns (model keys %s)" % (keys,), case)
+        return
+    # (d) property: repetitions are not copies of one another (model: keys pairwise distinct, theorem C15_single_keys_distinct)
+    if len(set(keys)) != len(keys):
+        ctx.violation("single", "model.single_keys", "model-self-consistency", "model keys %s are not pairwise distinct" % (keys,), case)
+    if ident_pairs:
+        ctx.violation("single", site, "repetitions-identical", "repetitions %s have identical empirical distributions although they draw from distinct stream positions %s" % (ident_pairs, keys), case)
     # (e) re-estimation from the stored empirical distributions reproduces the stored estimates
     with quiet():
         for r in range(n_rep):
@@ -360,6 +378,9 @@ def sub_single(ctx):
                 cases.append(dict(base, seed_data=sd, arg={"kind": "none"}))                                      # documented default: int seed_data
                 cases.append(dict(base, seed_data=rng.randrange(1, 2 ** 31), arg={"kind": "int", "seed": sd}))  # explicit int
                 cases.append(dict(base, seed_data=sd, arg={"kind": "gen", "root": rng.randrange(1, 2 ** 31), "path": [rng.randrange(5)] if rng.random() < 0.5 else []}))
+    if ctx.quick:      # the other three kinds of unknown, once each (the thorough tier runs the full grid)
+        for tomo in ["povm", "gate", "mprocess"]:
+            cases.append(dict(tomo=tomo, est="linear", n_rep=3, num_data=[20, 500], para=True, seed_data=rng.randrange(1, 2 ** 31), arg={"kind": "none"}))
     # ambient stream (no seed anywhere) made observable by seeding np.random first; para False; n_rep 1 and 4
     cases.append(dict(tomo="state", est="linear", n_rep=3, num_data=[20, 2000], para=False, seed_data=None, arg={"kind": "none"},
                       ambient_seed=rng.randrange(1, 2 ** 31), init_with_seed=False))
@@ -368,6 +389,146 @@ def sub_single(ctx):
     cases.append(dict(tomo="state", est="linear", n_rep=1, num_data=[20], para=True, seed_data=rng.randrange(1, 2 ** 31), arg={"kind": "none"}))
     ctx.sample("single", cases[0])
     ctx.run_cases("single", chk_single, cases)
+
+
+# ------------------------------------------------------------------ estimation tasks and the objects they mutate (deterministic)
+LOSS_CASES = ["loss_min"]
+
+
+def empi_key(empi_dists):
+    return tuple((int(n), np.ascontiguousarray(d).tobytes()) for (n, d) in empi_dists)
+
+
+def _nested_backend_probe():
+    """executed inside a loky worker process: the backend a joblib.Parallel created THERE would use"""
+    from joblib.parallel import get_active_backend
+    b = get_active_backend()[0]
+    return type(b).__name__
+
+
+def forced_schedule_run(case):
+    """Runs the real execute_estimation on joblib's THREADING backend with one thread per repetition and a FORCED schedule: a barrier in front of algo.optimize lets every
+    task load its data (loss.set_from_standard_qtomography_option_data) before any task optimises; the load and optimise steps are
+    serialised by a lock and recorded.  Only the scheduling of the threads is constrained - every such schedule is one the
+    threading backend may produce by itself.  Returns dict(serial=..., forced=..., events=..., broken=..., loss_ids=...)."""
+    import joblib
+    n = case["n_tasks"]
+    with quiet():
+        sim, st, qt = build_single(dict(tomo=case["tomo"], est=case["est"], seed_data=1, n_rep=n, num_data=[case["num"]], para=case["para"], init_with_seed=False))
+        data = [qt.generate_empi_dists_sequence(st.true_object, [case["num"]], gen_from_key(case["root"], [t])) for t in range(n)]
+        serial = [sim._execute_estimation(qt, data[t], copy.deepcopy(st.estimator), copy.deepcopy(st.loss), st.loss_option, copy.deepcopy(st.algo), st.algo_option).estimated_var_sequence[0]
+                  for t in range(n)]
+    key_of = {empi_key(d[0]): t for t, d in enumerate(data)}
+    tl, lock, barrier = threading.local(), threading.Lock(), threading.Barrier(n)
+    events, broken, loss_ids, algo_ids = [], [], {}, {}
+    LossT, AlgoT = type(st.loss), type(st.algo)
+    orig_set, orig_opt = LossT.set_from_standard_qtomography_option_data, AlgoT.optimize
+
+    def set_wrap(self, qtomography, option, empi_dists, *a, **k):
+        t = key_of[empi_key(empi_dists)]
+        with lock:
+            r = orig_set(self, qtomography, option, empi_dists, *a, **k)
+            events.append(2 * t); loss_ids[t] = id(self); tl.task = t
+        return r
+
+    def opt_wrap(self, *a, **k):
+        t = tl.task
+        try:
+            barrier.wait(timeout=60)
+        except threading.BrokenBarrierError:
+            broken.append(t)
+        with lock:
+            events.append(2 * t + 1); algo_ids[t] = id(self)
+            return orig_opt(self, *a, **k)
+    LossT.set_from_standard_qtomography_option_data, AlgoT.optimize = set_wrap, opt_wrap
+    try:
+        with quiet():
+            with joblib.parallel_backend("threading"):
+                # (execute_estimation_with_saved_empi_dists_sequences is not exercised: on the pinned tree it always raises - the loaded
+                #  data is bound to the wrong name in _load_and_execute_estimation - and the flow refuses data_saving="on_storage")
+                res = sim.execute_estimation(qt, st, data, n_jobs=n)
+    finally:
+        LossT.set_from_standard_qtomography_option_data, AlgoT.optimize = orig_set, orig_opt
+    forced = [er.estimated_var_sequence[0] for er in res.estimation_results]
+    return dict(serial=serial, forced=forced, events=events, broken=broken, loss_ids=loss_ids, algo_ids=algo_ids,
+                setting_loss_id=id(st.loss))
+
+
+def close(a, b):
+    return bool(np.allclose(np.asarray(a), np.asarray(b), atol=1e-9, rtol=0))
+
+
+_probe = {}
+
+
+def race_probe(ctx):
+    """does this tree let the repetitions' estimation tasks share one loss object?  (fixed small configuration, cached)"""
+    if "r" not in _probe:
+        out = forced_schedule_run(dict(tomo="state", est="loss_min", para=True, num=200, n_tasks=3, root=20260926, entry="memory"))
+        _probe["r"] = {"shared": any(not close(out["forced"][t], out["serial"][t]) for t in range(3))}
+    return _probe["r"]
+
+
+def chk_race(ctx, case):
+    m = ctx.get_model()
+    if case.get("kind") == "backend":
+        import joblib
+        with quiet():
+            names = joblib.Parallel(n_jobs=2)(joblib.delayed(_nested_backend_probe)() for _ in range(2))
+        ctx.count("race", key="backend", nontrivial=False, label="nested-backend-" + "/".join(sorted(set(names))))
+        ctx.note("race: a joblib.Parallel created inside a loky worker process uses %s (with ThreadingBackend the repetitions' estimation tasks of the flow entry point "
+                 "run as threads of one process whenever exactly one enclosing level has n_jobs > 1)" % sorted(set(names)))
+        return
+    n = case["n_tasks"]
+    site = "standard_qtomography_simulation.execute_estimation"
+    out = forced_schedule_run(case)
+    ev = out["events"]
+    # the model on the RECORDED schedule: private copies (the model) / one shared object (as coded before fix c15-execute-estimation-private-copies)
+    tr = [int(v) for v in m.call("c15.run_tasks", [0] + ev)]
+    tr_before = [int(v) for v in m.call("c15.run_tasks", [1] + ev)]
+    po, used = tr[0], {tr[i]: tr[i + 1] for i in range(1, len(tr), 2)}
+    used_before = {tr_before[i]: tr_before[i + 1] for i in range(1, len(tr_before), 2)}
+    forced_ok = (not out["broken"]) and sorted(ev[:n]) == [2 * t for t in range(n)] and sorted(ev[n:]) == [2 * t + 1 for t in range(n)]
+    distinct = all(not close(out["serial"][i], out["serial"][j]) for i in range(n) for j in range(i + 1, n))
+    ctx.count("race", key=repr(case), nontrivial=forced_ok and distinct and n >= 2,
+              label="%s-%s-%s" % (case["entry"], case["est"], "forced" if forced_ok else "schedule-not-forced"))
+    if po != 1 or sorted(used) != list(range(n)):
+        ctx.violation("race", "harness.forced_schedule_run", "model-self-consistency", "recorded schedule %s is not a program-ordered run of %d tasks" % (ev, n), case)
+        return
+    if any(used[t] != t for t in range(n)):
+        ctx.violation("race", "model.run_private", "model-self-consistency", "run_private on %s lets a task optimise over foreign data: %s" % (ev, used), case)
+        return
+    wrong = [t for t in range(n) if not close(out["forced"][t], out["serial"][t])]
+    if not wrong:
+        return
+    shared_ids = len(set(out["loss_ids"].values())) < n
+    dev = max(float(np.abs(np.asarray(out["forced"][t]) - np.asarray(out["serial"][t])).max()) for t in wrong)
+    if all(close(out["forced"][t], out["serial"][used_before[t]]) for t in range(n)):
+        ctx.violation("race", site, "shared-loss-thread-race",
+                      "joblib threading backend, %d repetitions, schedule %s (2t = task t loads its data, 2t+1 = task t optimises): tasks %s return the estimate of ANOTHER "
+                      "repetition's data (max deviation from their own serial estimate %.3g) - exactly the data indices %s that the one-shared-object dataflow "
+                      "(run_shared_before_fix) predicts for this schedule; the model (run_private, theorem C15_private_copies_race_free) gives every task its own data. "
+                      "All tasks loaded their data into %s." % (
+                          n, ev, wrong, dev, [used_before[t] for t in range(n)],
+                          "the SAME loss object (id() equal%s)" % (", the simulation setting's own object" if set(out["loss_ids"].values()) == {out["setting_loss_id"]} else "") if shared_ids else "distinct loss objects"), case)
+    else:
+        ctx.violation("race", site, "estimate-not-function-of-own-data",
+                      "threading backend, schedule %s: estimates of tasks %s differ from the serial estimates of their data (max %.3g) and are not explained by the "
+                      "one-shared-object dataflow either" % (ev, wrong, dev), case)
+
+
+def sub_race(ctx):
+    rng = ctx.rng
+    cases = [dict(kind="backend")]
+    for entry in ["memory"]:
+        for _ in range(ctx.n(2, 6)):
+            cases.append(dict(tomo="state", est="loss_min", para=rng.random() < 0.7, num=rng.choice([100, 200, 1000]), n_tasks=rng.choice([2, 3, 4]) if not ctx.quick else 3,
+                              root=rng.randrange(1, 2 ** 31), entry=entry))
+    if not ctx.quick:
+        for tomo in ["povm", "gate"]:
+            cases.append(dict(tomo=tomo, est="loss_min", para=True, num=200, n_tasks=3, root=rng.randrange(1, 2 ** 31), entry="memory"))
+    ctx.sample("race", cases[1])
+    ctx.run_cases("race", chk_race, cases)
 
 
 # ------------------------------------------------------------------ flow entry point
@@ -494,16 +655,14 @@ def objects_match(case, ts, gk, by, n_tester):
     return None
 
 
-RACY = [{"per_sample_unit": 2, "per_estimator_execution": 2}] * 3 + [{"per_sample_unit": 2, "per_estimator_execution": 4}] * 2
-
-
 def chk_flow(ctx, case):
     from quara.simulation import standard_qtomography_simulation as sim
     n_tester = len(TOMO[case["tomo"]][1])
     site = "standard_qtomography_simulation_flow.execute_simulation_test_settings"
     site_su = "standard_qtomography_simulation_flow.execute_simulation_sample_unit"
+    # the model (variant 0) and, only to NAME a violation, the dataflow as coded before fix c15-flow-generation-stream-per-setting
     raises, ambfree, gk, dk = flow_model_keys(ctx, case, n_tester, 0)
-    _, _, gk_fixed, _ = flow_model_keys(ctx, case, n_tester, 1)
+    raises_before, ambfree_before, gk_before, _ = flow_model_keys(ctx, case, n_tester, 1)
     with quiet():
         ts = build_test_setting(case)
     label = "%s-true:%s-testers:%s" % (case["tomo"], case["true_noise"], case["tester_noise"] if isinstance(case["tester_noise"], str) else "mixed")
@@ -516,11 +675,12 @@ def chk_flow(ctx, case):
         ref, impl_raises = None, "TypeError"
     ctx.count("flow", key=(repr(case), "ref"), label=label + ("-raises" if impl_raises else "-serial"))
     if impl_raises:
-        if raises:
+        if raises_before and not raises:
             bad = [n for n in (case["tester_noise"] if isinstance(case["tester_noise"], list) else [case["tester_noise"]]) if n != "random_lindbladian"][0]
             ctx.violation("flow", site_su, "mixed-noise-typeerror",
                           "true object with random-Lindbladian noise and a tester with '%s' noise: the run raises TypeError (the sample's stream is passed to a "
-                          "generate() that takes no argument; model: GTypeError) - no result for a valid configuration" % bad, case)
+                          "generate() that takes no argument; dataflow qop_key_before_fix: GTypeError) - no result for a valid configuration; "
+                          "the model hands the stream to exactly the settings that take one (keys %s)" % (bad, [gk[(0, j)] for j in range(n_tester + 1)]), case)
         else:
             ctx.violation("flow", site, "dataflow-model-mismatch", "implementation raises TypeError, the dataflow model does not", case)
         return
@@ -531,24 +691,20 @@ def chk_flow(ctx, case):
     rep_diff = first_diff(d0, flow_digest(run_flow(ts, None, exec_check)))
     ctx.count("flow", key=(repr(case), "repeat"), label=label + "-repeat")
     if rep_diff is not None:
-        if not ambfree:
+        if not ambfree_before:
             ctx.violation("flow", site_su, "unseeded-tester-generation",
                           "true object noise '%s' needs no random stream but a tester's noise is random: the testers are generated from the process-global np.random "
-                          "(model key: ambient) - %s differ between two runs with identical settings and seeds" % (case["true_noise"], rep_diff), case)
+                          "(dataflow qop_key_before_fix: ambient; the model assigns %s) - %s differ between two runs with identical settings and seeds" % (
+                              case["true_noise"], [gk[(0, j)] for j in range(n_tester + 1)], rep_diff), case)
         else:
             ctx.violation("flow", site, "not-reproducible", "%s differ between two serial runs with identical settings and seeds" % rep_diff, case)
         return
-    # ---- which dataflow does the code follow: the faithful model or the proposed repair (findings/C15-2.md)
+    # ---- objects regenerated from the model keys
     with quiet():
-        bad0 = objects_match(case, ts, gk, by, n_tester) if (ambfree and not raises) else -1
-        if bad0 is not None:
-            bad1 = objects_match(case, ts, gk_fixed, by, n_tester)
-            if bad1 is None:
-                note_once(ctx, "flow: object generation follows the REPAIRED seed dispatch (qop_key_fixed); the _refuted theorem describes the code before the repair")
-                gk = gk_fixed
-            else:
-                ctx.violation("flow", site, "dataflow-model-mismatch", "objects of sample %d are not what the generation settings produce from the model keys (faithful %s / repaired %s)" % (
-                    bad1, [gk[(bad1, j)] for j in range(n_tester + 1)], [gk_fixed[(bad1, j)] for j in range(n_tester + 1)]), case)
+        bad0 = objects_match(case, ts, gk, by, n_tester)
+    if bad0 is not None:
+        ctx.violation("flow", site, "dataflow-model-mismatch", "objects of sample %d are not what the generation settings produce from the model keys %s" % (
+            bad0, [gk[(bad0, j)] for j in range(n_tester + 1)]), case)
     for s in range(case["n_sample"]):
         st0 = by[(s, 0)].simulation_setting
         for c in range(1, n_case):
@@ -564,24 +720,13 @@ def chk_flow(ctx, case):
         if diff is None:
             continue
         same_inputs = len(d0) == len(d1) and all(a[:5] == b[:5] for a, b in zip(d0, d1))
-        if same_inputs:
-            # same objects and data, different estimates: is the estimation task a function of its stored inputs?
-            byp = {(r.result_index["sample_index"], r.result_index["case_index"]): r for r in res}
-            impure = []
-            with quiet():
-                for key_, r in sorted(byp.items()):
-                    for rep in range(case["n_rep"]):
-                        if est_bytes(r.estimation_results[rep]) != est_bytes(by[key_].estimation_results[rep]):
-                            again = sim.re_estimate(ts, r, rep)
-                            if est_bytes(again) == est_bytes(by[key_].estimation_results[rep]):
-                                dv = max(float(np.abs(np.asarray(x) - np.asarray(y)).max()) for x, y in zip(r.estimation_results[rep].estimated_var_sequence, by[key_].estimation_results[rep].estimated_var_sequence))
-                                impure.append((key_[0], key_[1], rep, dv))
-            if impure:
-                ctx.violation("flow", "standard_qtomography_simulation.execute_estimation", "shared-loss-thread-race",
-                              "parallel_mode=%s: estimates of (sample, case, repetition, max deviation) %s differ from the serial run although objects and empirical distributions are "
-                              "identical, and re-estimating serially from the stored distributions gives the serial values: the repetitions' tasks share one loss/algo object, "
-                              "which joblib's threading backend (selected for a Parallel nested in a worker process) lets them mutate concurrently" % (pm, impure[:4]), case)
-                continue
+        if same_inputs and race_probe(ctx)["shared"]:
+            # Same objects and data, different estimates, and the deterministic probe (sub-check race) has established that this tree
+            # lets the repetitions' tasks share one loss object: the difference is a manifestation of THAT defect, which sub-check
+            # race reports with a forced schedule.  A race-dependent observation never decides the verdict.
+            note_once(ctx, "flow: estimates differed from the serial run under some worker configuration; explained by the shared loss object "
+                           "(violation shared-loss-thread-race of sub-check race) - not reported a second time")
+            continue
         ctx.violation("flow", site, "depends-on-worker-count", "%s differ between the serial reference run and parallel_mode=%s" % (diff, pm), case)
     # ---- data regenerated from the model keys
     with quiet():
@@ -598,9 +743,8 @@ def chk_flow(ctx, case):
     # ---- property: repetitions are not copies of one another (model: data keys pairwise distinct)
     for (s, c), r in sorted(by.items()):
         reps = [empi_bytes(x) for x in r.empi_dists_sequences]
-        ests = [est_bytes(e) for e in r.estimation_results]
-        if len(set(reps)) != len(reps) or (len(set(ests)) != len(ests)):
-            ctx.violation("flow", site, "repetitions-identical", "sample %d case %d: some repetitions are identical (%d distinct data, %d distinct estimates of %d)" % (s, c, len(set(reps)), len(set(ests)), len(reps)), case)
+        if len(set(reps)) != len(reps):
+            ctx.violation("flow", site, "repetitions-identical", "sample %d case %d: some repetitions are identical (%d distinct data of %d)" % (s, c, len(set(reps)), len(reps)), case)
     # ---- re-estimation reproduces the stored estimates
     with quiet():
         for (s, c), r in sorted(by.items()):
@@ -620,6 +764,8 @@ def sub_flow(ctx):
     all2, all4 = {l: 2 for l in LEVELS}, {l: 4 for l in LEVELS}
     mixed = {"per_sample_unit": 2, "per_data_generation": 4, "per_estimator_unit": 1, "per_estimator_execution": 2}
     full = [{lvl: 2} for lvl in LEVELS] + [all2] + [{lvl: 4} for lvl in LEVELS] + [all4, mixed]
+    # configurations in which joblib runs the repetitions' estimation tasks as THREADS (a Parallel nested in one worker process)
+    nested_threads = [{"per_sample_unit": 2, "per_estimator_execution": 2}, {"per_estimator_unit": 2, "per_estimator_execution": 2}]
 
     def base(tomo="state", **kw):
         d = dict(tomo=tomo, ests=["linear", "projected_linear", "loss_min"], paras=[True, True, True], n_sample=2, n_rep=3,
@@ -628,15 +774,17 @@ def sub_flow(ctx):
         d.update(kw)
         return d
     cases = [
-        # mixed noise methods (model: ambient stream / TypeError)
-        base(true_noise="none", tester_noise="random_lindbladian", parallel_modes=[]),
+        # mixed noise methods (before fix c15-flow-generation-stream-per-setting: ambient stream / TypeError)
+        base(true_noise="none", tester_noise="random_lindbladian", parallel_modes=[all2] if not ctx.quick else []),
         base(true_noise="depolarized", tester_noise=["depolarized", "random_lindbladian", "none"], parallel_modes=[]),
         base(true_noise="random_lindbladian", tester_noise=["random_lindbladian", "depolarized", "random_lindbladian"], parallel_modes=[]),
+        base(true_noise="random_lindbladian", tester_noise=["none", "random_lindbladian", "depolarized"], parallel_modes=[]),
         # homogeneous noise
         base(true_noise="none", tester_noise="none", parallel_modes=[all4], paras=[False, True, False],
              exec_check={"consistency": True, "mse_of_estimators": True, "mse_of_empi_dists": True, "physicality_violation": True}),
-        base(true_noise="depolarized", tester_noise="depolarized", parallel_modes=full if not ctx.quick else [all2, mixed], paras=[True, False, True]),
-        base(true_noise="random_lindbladian", tester_noise="random_lindbladian", parallel_modes=full + RACY),
+        base(true_noise="depolarized", tester_noise="depolarized", parallel_modes=full if not ctx.quick else [all2], paras=[True, False, True]),
+        base(true_noise="random_lindbladian", tester_noise="random_lindbladian",
+             parallel_modes=(full if not ctx.quick else [{lvl: 2} for lvl in LEVELS] + [mixed]) + nested_threads),
     ]
     if not ctx.quick:
         for tomo in ["povm", "gate", "mprocess"]:
@@ -685,17 +833,21 @@ def chk_depol(ctx, case):
     site = {"setting": "DepolarizedQOperationGenerationSetting.generate", "typical": "qoperation_typical.generate_qoperation_depolarized",
             "tester": "tester_typical.generate_tester_%ss_depolarized" % kind}[path]
     rngc = __import__("random").Random(case.get("gen_seed", 0))
+    ids = case.get("ids")          # multi-qubit gates (cx) need the subsystem ids
     with quiet():
         if name == "generic":
             base = State(c, rat_state_vec(rngc, c, boundary=case.get("boundary", False)))
+        elif path == "tester" and c.num_e_sys > 1:
+            # the tester constructors take 1-qubit names and build the product object on the composite system
+            base = (tester_typical.generate_tester_states if kind == "state" else tester_typical.generate_tester_povms)(c, [name])[0]
         else:
-            base = generate_qoperation(kind, name, c)
+            base = generate_qoperation(kind, name, c, ids=ids)
         try:
             if path == "setting":
-                gs = DepolarizedQOperationGenerationSetting(c, base if name == "generic" else (kind, name), p)
+                gs = DepolarizedQOperationGenerationSetting(c, base if name == "generic" else (kind, name), p, ids=ids)
                 out = gs.generate()
             elif path == "typical":
-                out = generate_qoperation_depolarized(kind, name, c, p)
+                out = generate_qoperation_depolarized(kind, name, c, p, ids=ids)
             else:
                 f = tester_typical.generate_tester_states_depolarized if kind == "state" else tester_typical.generate_tester_povms_depolarized
                 out = f(c, [name], p)[0]
@@ -779,10 +931,16 @@ def sub_depol(ctx):
                     paths = ["setting"]
                     if name != "generic":
                         paths.append("typical")
-                        if kind in ("state", "povm"):
+                        if kind in ("state", "povm") and mode != "2qubit":
                             paths.append("tester")
                     for path in paths:
                         cases.append(dict(mode=mode, kind=kind, name=name, p=p, path=path, gen_seed=rng.randrange(10 ** 6), boundary=rng.random() < 0.5))
+                        if name == "cx":
+                            cases[-1]["ids"] = rng.choice([[0, 1], [1, 0]])
+    if "2qubit" in modes:      # tester constructors on a composite system: 1-qubit names, product objects
+        for kind, name in [("state", "a"), ("state", "z0"), ("povm", "x")]:
+            for p in ["0", "1", "1/3"]:
+                cases.append(dict(mode="2qubit", kind=kind, name=name, p=p, path="tester", gen_seed=rng.randrange(10 ** 6)))
     for p in ["-1/10", "11/10", "-1/1000000000", "1000000001/1000000000"]:
         for path, kind, name in [("setting", "state", "a"), ("typical", "gate", "hadamard"), ("tester", "povm", "x")]:
             cases.append(dict(mode="qubit", kind=kind, name=name, p=p, path=path))
@@ -988,9 +1146,9 @@ def sub_sched(ctx):
     ctx.run_cases("sched", chk_spawn, sp)
 
 
-SUBS = [("sched", sub_sched), ("decision", sub_decision), ("depol", sub_depol), ("randlind", sub_randlind), ("single", sub_single), ("flow", sub_flow)]
+SUBS = [("sched", sub_sched), ("decision", sub_decision), ("depol", sub_depol), ("randlind", sub_randlind), ("single", sub_single), ("race", sub_race), ("flow", sub_flow)]
 FNS = {"sched": lambda ctx, case: (chk_spawn if "counts" in case else chk_sched)(ctx, case), "decision": chk_decision, "depol": chk_depol,
-       "randlind": chk_randlind, "single": chk_single, "flow": chk_flow}
+       "randlind": chk_randlind, "single": chk_single, "race": chk_race, "flow": chk_flow}
 
 
 def run(ctx):
@@ -1002,10 +1160,22 @@ def run(ctx):
                 "decision: synthetic stored estimates with planted equality / inequality violations well away from the thresholds "
                 "(in-band cases counted as trivial) x estimator kind x parametrisation x algo flags, incl. empty inputs; distinct = distinct case record")
     os.makedirs(SCRATCH, exist_ok=True)
+    import time
+    walls = {}
+
+    def timed(name, fn):
+        def run_sub(c):
+            t0 = time.time()
+            try:
+                fn(c)
+            finally:
+                walls[name] = time.time() - t0
+        return run_sub
     try:
-        flow.standard_run(ctx, SUBS)
+        flow.standard_run(ctx, [(n, timed(n, f)) for n, f in SUBS])
     finally:
         shutil.rmtree(SCRATCH, ignore_errors=True)
+    ctx.note("wall per sub-check (s): " + ", ".join("%s %.1f" % (n, walls[n]) for n, _ in SUBS if n in walls))
     ctx.assumptions = ["independence from OS process scheduling and the determinism of joblib/loky, MT19937 and scipy.stats are OBSERVED over the runs made (monitoring), not proved",
                        "physicality of random-Lindbladian noise objects is checked on outputs (expm is an oracle, see C18)",
                        "the verdict functions is_eq/ineq_constraint_satisfied themselves belong to C01; here they enter through the defects (|tr-1|, -lambda_min, ...) computed by the harness"]
